@@ -51,7 +51,10 @@ impl Gen {
             spirv::Op::Nop, spirv::Op::Return, spirv::Op::Label, spirv::Op::Kill, spirv::Op::Function, spirv::Op::FunctionEnd,
             spirv::Op::Capability, spirv::Op::Line, spirv::Op::Phi, spirv::Op::Branch, spirv::Op::TypeVoid, spirv::Op::Unreachable,
         ];
-        dr::Instruction::new(OPS[(self.next as usize * 7 + 3) % OPS.len()], None, Some(self.next), vec![dr::Operand::LiteralBit32(self.next ^ 0x5555)])
+        // every third instruction repeats the previous one's opcode and operands (two equal neighbours: a traversal or an
+        // assembler that merges / skips repeated instructions is seen); identity for the comparison is the unique id
+        let k = if self.next % 3 == 0 { self.next - 1 } else { self.next };
+        dr::Instruction::new(OPS[(k as usize * 7 + 3) % OPS.len()], None, Some(self.next), vec![dr::Operand::LiteralBit32(k ^ 0x5555)])
     }
     fn list(&mut self, n: usize) -> Vec<dr::Instruction> {
         (0..n).map(|_| self.inst()).collect()
@@ -155,37 +158,86 @@ fn reference(m: &dr::Module) -> (Vec<u32>, usize, Vec<(usize, usize)>) {
 }
 
 fn check(mask: u32, fns: &[&FnSpec], label: &str) -> Vec<Viol> {
-    let mut out = vec![];
     let rep = json!({"kind": "c15", "section_mask": mask, "functions": fns.iter().map(|f| format!("{:?}", f)).collect::<Vec<_>>()});
+    check_module(&|| build(mask, fns), label, rep)
+}
+
+/// U-scale for traversals: section lengths, function / block / instruction counts on both sides of 2^8 and 2^16
+fn big_modules() -> Vec<(String, Box<dyn Fn() -> dr::Module + Sync + Send>)> {
+    let mut out: Vec<(String, Box<dyn Fn() -> dr::Module + Sync + Send>)> = vec![];
+    for n in [255usize, 256, 257, 65535, 65536, 65537] {
+        out.push((format!("big: every section {} instructions", n), Box::new(move || {
+            let mut g = Gen { next: 0 };
+            let mut m = dr::Module::new();
+            let k = if n > 1000 { n / 8 } else { n };
+            m.types_global_values = g.list(n);
+            m.capabilities = g.list(k);
+            m.extensions = g.list(k);
+            m.ext_inst_imports = g.list(k);
+            m.annotations = g.list(k);
+            m.entry_points = g.list(k);
+            m.execution_modes = g.list(k);
+            m.debug_module_processed = g.list(k);
+            m.debug_string_source = g.list(k);
+            m.debug_names = g.list(n);
+            m
+        })));
+        for (f, b, i) in [(n, 1usize, 1usize), (1, n, 1), (1, 1, n), (2, n / 2 + 1, 0)] {
+            out.push((format!("big: {} functions x {} blocks x {} instructions", f, b, i), Box::new(move || {
+                let mut g = Gen { next: 0 };
+                let mut m = dr::Module::new();
+                m.types_global_values = g.list(3);
+                let spec = FnSpec { def: true, end: true, params: if f == 1 { n.min(300) } else { 1 }, blocks: vec![(true, i); b] };
+                for _ in 0..f {
+                    let func = g.function(&spec);
+                    m.functions.push(func);
+                }
+                m
+            })));
+        }
+    }
+    out
+}
+
+fn brief(v: &[u32]) -> String {
+    if v.len() <= 40 {
+        format!("{:?}", v)
+    } else {
+        format!("{} ids {:?} .. {:?}", v.len(), &v[..8], &v[v.len() - 8..])
+    }
+}
+
+fn check_module(make: &dyn Fn() -> dr::Module, label: &str, rep: serde_json::Value) -> Vec<Viol> {
+    let mut out = vec![];
     let r = guarded(|| {
-        let mut m = build(mask, fns);
+        let mut m = make();
         let (ids, globals, slices) = reference(&m);
         let mut bad: Vec<(String, String)> = vec![];
         let ro: Vec<u32> = m.all_inst_iter().map(|i| i.result_id.unwrap()).collect();
         if ro != ids {
-            bad.push(("all_inst_iter".into(), format!("visits {:?}, assembly order is {:?}", ro, ids)));
+            bad.push(("all_inst_iter".into(), format!("visits {}, assembly order is {}", brief(&ro), brief(&ids))));
         }
         let rw: Vec<u32> = m.all_inst_iter_mut().map(|i| i.result_id.unwrap()).collect();
         if rw != ids {
-            bad.push(("all_inst_iter_mut".into(), format!("visits {:?}, assembly order is {:?}", rw, ids)));
+            bad.push(("all_inst_iter_mut".into(), format!("visits {}, assembly order is {}", brief(&rw), brief(&ids))));
         }
         let g: Vec<u32> = m.global_inst_iter().map(|i| i.result_id.unwrap()).collect();
         if g != ids[..globals] {
-            bad.push(("global_inst_iter".into(), format!("visits {:?}, the prefix before the first function is {:?}", g, &ids[..globals])));
+            bad.push(("global_inst_iter".into(), format!("visits {}, the prefix before the first function is {}", brief(&g), brief(&ids[..globals]))));
         }
         let gm: Vec<u32> = m.global_inst_iter_mut().map(|i| i.result_id.unwrap()).collect();
         if gm != ids[..globals] {
-            bad.push(("global_inst_iter_mut".into(), format!("visits {:?}, the prefix before the first function is {:?}", gm, &ids[..globals])));
+            bad.push(("global_inst_iter_mut".into(), format!("visits {}, the prefix before the first function is {}", brief(&gm), brief(&ids[..globals]))));
         }
         for (fi, f) in m.functions.iter_mut().enumerate() {
             let (a, b) = slices[fi];
             let fr: Vec<u32> = f.all_inst_iter().map(|i| i.result_id.unwrap()).collect();
             if fr != ids[a..b] {
-                bad.push(("Function::all_inst_iter".into(), format!("function {} visits {:?}, its slice is {:?}", fi, fr, &ids[a..b])));
+                bad.push(("Function::all_inst_iter".into(), format!("function {} visits {}, its slice is {}", fi, brief(&fr), brief(&ids[a..b]))));
             }
             let fw: Vec<u32> = f.all_inst_iter_mut().map(|i| i.result_id.unwrap()).collect();
             if fw != ids[a..b] {
-                bad.push(("Function::all_inst_iter_mut".into(), format!("function {} visits {:?}, its slice is {:?}", fi, fw, &ids[a..b])));
+                bad.push(("Function::all_inst_iter_mut".into(), format!("function {} visits {}, its slice is {}", fi, brief(&fw), brief(&ids[a..b]))));
             }
         }
         // the mutable traversal really yields the module's own instructions: mutate through it, observe through the other
@@ -253,10 +305,18 @@ pub fn run(tier: Tier) -> Run {
         n += 1;
         run.add_all(v);
     }
+    // U-scale
+    let bigs = big_modules();
+    let res: Vec<Vec<Viol>> = bigs.par_iter().map(|(label, make)| check_module(&**make, label, json!({"kind": "c15-big", "module": label}))).collect();
+    for v in res {
+        n += 1;
+        run.add_all(v);
+    }
+    run.outcome("big_modules", bigs.len() as u64);
     run.outcome("modules", n);
     run.set("evaluations", json!(n * 7));
     run.set("distinct_nontrivial", json!(n));
-    run.set("rule", json!("dr::Module values built directly: every subset of the 11 sections (empty / two instructions; memory model present / absent) and header present / absent, x function lists (none; every single function over def/end present-absent, 0-2 parameters, 0-2 blocks with label present-absent and 0-2 instructions; ordered pairs/triples of representatives). Every instruction has a unique id deliberately not monotone along the layout. The six traversals are compared by id with the reference order; assemble() with header ++ concatenation of the visited instructions' own assembly. distinct modules are all non-trivial (each differs in shape)"));
+    run.set("rule", json!("dr::Module values built directly: every subset of the 11 sections (empty / two instructions; memory model present / absent) and header present / absent, x function lists (none; every single function over def/end present-absent, 0-2 parameters, 0-2 blocks with label present-absent and 0-2 instructions; ordered pairs/triples of representatives). Every instruction has a unique id deliberately not monotone along the layout. Every third instruction equals its predecessor in opcode and operands. U-scale: section lengths and function / block / instruction / parameter counts of 255, 256, 257, 65535, 65536, 65537. The six traversals are compared by id with the reference order; assemble() with header ++ concatenation of the visited instructions' own assembly. distinct modules are all non-trivial (each differs in shape)"));
     run.set("exhaustive", json!(true));
     run.set("bounds", json!({"section_masks": masks.len(), "function_lists": lists.len(), "single_function_shapes": specs.len(), "product": "full product", "triples": tier == Tier::Thorough}));
     run.set("samples", json!([{"mask": "0x555", "functions": format!("{:?}", lists[17])}, {"mask": "0xfff", "functions": format!("{:?}", lists[lists.len() - 1])}]));
